@@ -61,7 +61,7 @@ claim("C05", "exploration",
 claim("C06", "exploration",
       "fuzzing / property-based testing with structured generators: well-framed RTPS datagrams with boundary-pool field values, mutated and raw bytes, hostile discovery payloads, injected into a real node in a generated protocol state; oracles: no panic/abort, deterministic loop-iteration and allocation budgets, metamorphic survival clause (valid traffic of another peer processed as on a fresh node)",
       "Generated hostile datagram sequences (structured with boundary pools for every numeric field; mutated; raw) are injected into MessageReceiver::handle_received_packet of a node with a reliable and a best-effort reader and a reliable writer with history, after valid traffic put it into a generated protocol state; ACKNACK/NACKFRAG reach Writer::handle_ack_nack as in DPEventLoop. "
-      "Per datagram: panics (overflow checks on), process aborts (supervisor), loop iterations at guarded tick points and peak allocation against budgets proportional to the datagram length. Afterwards a well-behaved peer's DATA+HEARTBEAT must be handed over byte-exact and answered with the right ACKNACK, and the writer must still answer that peer's ACKNACK with the requested sample. Genuine defects found are fixed or listed in known_findings.txt with a generator exclusion.",
+      "Per datagram: panics (overflow checks on), process aborts (supervisor), loop iterations at guarded tick points and peak allocation against budgets proportional to the datagram length. Afterwards a well-behaved peer's DATA+HEARTBEAT must be handed over byte-exact and answered with the right ACKNACK, and the writer must still answer that peer's ACKNACK with the requested sample. Genuine defects found are fixed or listed in known_findings.txt with a generator exclusion. Scenarios 3 / 4 run the stateful reader / writer scripts of C01 / C04 (incl. NACKFRAG, directed writes, cache cleaning) for survival, and require that the writer's repair requests drain once the traffic has stopped. Second stage (security build, scenario 5): a MessageReceiver with real SecurityPlugins and generated protection receives the datagrams of a key-exchanged peer, each first in 1-3 byte-mutated forms (bytes, submessage lengths, 32-bit fields of the secure submessages, truncation, insertion, splices) under the same per-datagram monitors; then a second correctly protecting peer must still reach every reader. ./check merges the evidence of the two stages.",
       "Trusted: tick points cover the value-driven loops found by reading (others are seen only by the 120 s watchdog, reported as inconclusive); allocation is measured per thread; libFuzzer target (fuzz/) adds coverage-guided raw bytes in the thorough tier.",
       "DESIGN.md section 2, C06")
 
@@ -95,14 +95,14 @@ claim("C07", "exploration",
 claim("C16", "exploration",
       "round-trip and fault-injection property-based testing: generated protection configurations and plaintexts are encoded by the real crypto plugin, serialized to datagram bytes, altered (every byte position, field replacements, swaps between encodings, foreign key material, other addressee), parsed by the real RTPS parser and decoded; the oracle is the plaintext and a byte-region map derived from the DDS-Security wire layout",
       "One sender and 1-3 receivers (real CryptographicBuiltin instances, keys exchanged through the real key factory / token calls) with RTPS, submessage and payload protection each NONE / SIGN / ENCRYPT, AES-128/256, origin authentication on/off. Payloads (all residues mod 4) travel in DATA (padded) or DATAFRAG framing, submessages and whole messages through Message::write / Message::read_from_buffer. "
-      "Violation: an untouched protected form is rejected or decodes differently at an addressed receiver; any alteration inside the authenticated bytes (transformation kind, key id, session id, IV, content, common MAC, the receiver's own MAC entry, RTPS header at message level) still decodes; any alteration at all decodes to different content; the prefix of another encoding, an encoding under other key material, or (with origin authentication) an encoding not carrying this receiver's MAC decodes.",
+      "Violation: an untouched protected form is rejected or decodes differently at an addressed receiver; any alteration inside the authenticated bytes (transformation kind, key id, session id, IV, content, common MAC, the receiver's own MAC entry, RTPS header at message level) still decodes; any alteration at all decodes to different content; the prefix of another encoding, an encoding under other key material, or (with origin authentication) an encoding not carrying this receiver's MAC decodes. Receiver 0 is also matched and key-exchanged with a second legitimate sender: its traffic must round-trip, and what one sender encoded must be rejected when decoded under the other's handles (payload, submessage, message level).",
       "Trusted: ring's AES-GCM; the region map (from the specification's wire layout) of what is authenticated. Alterations are single-byte XOR masks and whole-field replacements, not adaptive forgeries.",
       "DESIGN.md section 2, C16")
 
 claim("C17", "exploration",
       "fault-injection / differential property-based testing of the receive path: generated protection configurations and generated mixes of plaintext, wrongly protected, malformed and correctly protected traffic are injected into a real MessageReceiver with real SecurityPlugins; the oracle is a decision table written from the property",
       "A rig node (real MessageReceiver, Readers, Writer, SecurityPlugins with the real CryptographicBuiltin) with RTPS protection NONE/SIGN/ENCRYPT, 2-3 user readers and a user writer with generated submessage / payload protection, the three exempt built-in readers and the SEDP publications reader. A key-exchanged peer's plugins produce correct payload / submessage / message protection; the generator also sends plaintext, payloads under another writer's key, wrappers made with another endpoint's keys, broken prefix/body/postfix sequences, ENTITYID_UNKNOWN addressing, INFO_DST. "
-      "Violation: a DATA reaches a reader's TopicCache (or an ACKNACK the ack-nack channel) although a required layer was missing or made with other keys (bypass); a protected payload is delivered altered; traffic carrying exactly the required protection (or plaintext to an unprotected endpoint, or plaintext to the three exempt topics under RTPS protection) is not delivered.",
+      "Violation: a DATA reaches a reader's TopicCache (or an ACKNACK the ack-nack channel) although a required layer was missing or made with other keys (bypass); a protected payload is delivered altered; traffic carrying exactly the required protection (or plaintext to an unprotected endpoint, or plaintext to the three exempt topics under RTPS protection) is not delivered. Plaintext DATA also claims writer ids other than the matched one (bootstrap writers, SEDP writers, another endpoint's writer); user readers are sometimes also matched with writers of a third participant that carry the same entity ids. Scenario 1 starts at the governance document: the generated requirements are written as a signed governance document, loaded by the real AccessControlBuiltin, the attributes it derives are compared with the DDS-Security mapping (kind -> protected / encrypted / origin authenticated; secure built-in, key-exchange and bootstrap topics) and used to configure the same rig. A legitimate set-up that fails is a violation (c17.blocked|setup).",
       "Trusted: the decision table in incrate/c17_gate.rs; authentication / access control are stubs (never consulted by the gating code). Payload protection is taken to cover the serialized payload only (a DATA without payload is not generated).",
       "DESIGN.md section 2, C17")
 
@@ -115,8 +115,8 @@ claim("C18", "exploration",
 
 claim("C19", "exploration",
       "fault-injection property-based testing with a metamorphic recovery oracle: a genuine three-message handshake between real AuthenticationBuiltin instances with one generated fault spliced in at a generated point, followed by the genuine message that was due",
-      "Identities: the shipped participant certificate, a second one issued in-process by the shipped Identity CA key, and one issued by a foreign CA of the same name. Faults: every token field (c.id c.perm c.pdata c.dsign_algo c.kagree_algo hash_c1 dh1 challenge1 hash_c2 dh2 challenge2 signature, class id) with one byte flipped / truncated / emptied / removed / replaced by the value of another run; the whole message of another run; another message out of order; the corresponding message of the foreign-CA identity; a request claiming a GUID not derived from the certificate; delivered before the request, the reply or the final message is processed, or after completion. "
-      "Violation: the fault-free run fails or the secrets differ; a bad message makes the side that processed it return Ok / OkFinalMessage or hold a shared secret; after a rejected bad message the genuine message no longer completes the handshake with equal secrets; a bad message changes or erases the secret of a completed handshake.",
+      "Identities: the shipped participant certificate, a second one issued in-process by the shipped Identity CA key, and one issued by a foreign CA of the same name. Faults: every token field (c.id c.perm c.pdata c.dsign_algo c.kagree_algo hash_c1 dh1 challenge1 hash_c2 dh2 challenge2 signature, class id) with one byte flipped / truncated / emptied / removed / replaced by the value of another run; the whole message of another run; another message out of order; the corresponding message of the foreign-CA identity; a request or a hand-built consistent reply claiming a GUID not derived from the certificate (its own with bits changed, or the GUID of a third identity issued by the same CA); delivered before the request, the reply or the final message is processed, or after completion. "
+      "Violation: the fault-free run fails or the secrets differ; a bad message makes the side that processed it return Ok / OkFinalMessage or hold a shared secret; after a rejected bad message the genuine message no longer completes the handshake with equal secrets; a bad message changes or erases the secret of a completed handshake; after the genuine handshake, the same plugin instance accepts a NEW participant whose certificate carries the genuine peer's subject name but was issued by a foreign CA (as requester or as replier). A genuine set-up that fails is a violation, not a harness error.",
       "Trusted: ring / openssl; alterations are single-field, not adaptive forgeries. A request is unauthenticated by design: a self-consistent bad request may be taken as a request (it must not complete on that side); that it then blocks the genuine request is the listed known finding.",
       "DESIGN.md section 2, C19")
 
@@ -130,7 +130,7 @@ claim("C02", "exploration",
 claim("C08", "exploration",
       "model-based (stateful) property-based testing: generated histories of arrivals (values / disposes, several instances and writers, out-of-order sequence numbers) and every access call of the public DataReader API against a reference model of DDS 1.4 2.2.2.5.1",
       "A reference model (instances with state, disposed generation count, per-sample generation snapshot / read flag / taken flag, History eviction) written from the DDS text predicts for every generated call (read, take, *_next_sample, read/take_instance This/Next with present, absent and unknown keys, four iterators; conditions any / not_read; max 0,1,2,all) "
-      "the number of returned samples, that each is selected by the condition, per-writer sequence order, sample_state, instance_state, generation counts, view_state of the most recent sample of each instance, take-at-most-once, read never removing, and the History depth bound.",
+      "the number of returned samples, that each is selected by the condition, per-writer sequence order, sample_state, instance_state, generation counts, view_state of the most recent sample of each instance, take-at-most-once, read never removing, and the History depth bound. Scenario 1 (differential): the no_key DataReader and a with_key DataReader receive the same values of 1-3 writers on one instance and must answer every call (read, take, *_next_sample, the four iterators) alike.",
       "Trusted: the model in incrate/c08_readtake.rs with the readings documented in the evidence assumptions (KeepLast counts taken changes as recent; 'most recent' is by reception time; view state asserted where two readings of the spec agree). Changes are placed in the topic cache as the RTPS Reader does.",
       "DESIGN.md section 2, C08")
 claim("C09", "exploration",
